@@ -7,8 +7,8 @@
 #include <sys/mman.h>
 
 #define CHUNK 4096
-enum { K_DECODE8, K_DECODEF, K_ENCODE8, K_ROUNDTRIP, K_FOOTPRINT, K_YUV, K_LATEWRAP, NKINDS };
-static const char *kname[] = { "decode-to-a8r8g8b8", "decode-to-float", "encode-from-a8r8g8b8", "round-trip", "store-footprint", "yuv", "accessors-installed-after-first-use" };
+enum { K_DECODE8, K_DECODEF, K_ENCODE8, K_ROUNDTRIP, K_FOOTPRINT, K_YUV, K_LATEWRAP, K_COPY, NKINDS };
+static const char *kname[] = { "decode-to-a8r8g8b8", "decode-to-float", "encode-from-a8r8g8b8", "round-trip", "store-footprint", "yuv", "accessors-installed-after-first-use", "copies-of-runs" };
 
 static pixman_format_code_t fmts[64]; static int nfmts;
 
@@ -391,6 +391,63 @@ static void c10_case (long idx, vf_rng *r)
         }
         vf_count ("evaluations", ne); vf_count ("footprint_bits", ne);
         vf_cell ("cells", vf_mix (vf_mix (5, (uint64_t)f), chunk));
+    }
+    else if (kind == K_COPY && !rp_is_float (f) && bpp <= 32) {
+        /* rows made of RUNS: neighbouring pixels that agree in all fields but one (or agree completely), copied F -> F (indexed: into an image with
+         * another palette), F -> a8r8g8b8 -> F, F -> float -> F and F -> G for three other narrow formats G.  What a store writes at x must not depend on x-1. */
+        int direct = rp_is_direct (f); int sh[4], bits[4]; if (direct) rp_layout (f, sh, bits);
+        uint32_t base = 0; int ch = 0;
+        for (int i = 0; i < n; i++) {
+            if (direct) {
+                if (i % 6 == 0) { base = vf_u32 (r); if (vf_chance (r, 1, 3)) base = vf_chance (r, 1, 2) ? 0 : 0xffffffffu; do ch = (int)(vf_next (r) % 4); while (!bits[ch]); }
+                uint32_t fm = (bits[ch] >= 32 ? 0xffffffffu : ((1u << bits[ch]) - 1)) << sh[ch];
+                vals[i] = ((base & ~fm) | (vals[i] & fm)) & (bpp == 32 ? 0xffffffffu : (1u << bpp) - 1);
+                if (i % 6 == 5) vals[i] = vals[i - 1];      /* and a plain repetition */
+            } else vals[i] = vals[i - i % 3];
+            vf_put_px (vf_buf_row (&S, 0), bpp, off + i, vals[i]);
+        }
+        long ne = 0;
+        if (pixman_format_supported_destination (f)) {
+            /* (a) same format */
+            pixman_indexed_t *pal2 = pal ? rq_make_palette (f, 99 + (uint64_t)(idx % nfmts) + (uint64_t)chunk) : NULL;
+            vf_buf D; vf_buf_alloc (&D, f, W, 1, 0, 0, vf_default_place (r)); vf_buf_fill_random (&D, r);
+            pixman_image_t *d = vf_buf_image (&D); if (pal2) pixman_image_set_indexed (d, pal2);
+            pixman_image_composite32 (PIXMAN_OP_SRC, simg, NULL, d, off, 0, 0, 0, off, 0, n, 1);
+            for (int i = 0; i < n; i++) {
+                uint32_t got = vf_get_px (vf_buf_row (&D, 0), bpp, off + i), want = pal ? expect_encode8 (f, expect_decode8 (f, vals[i] & dmask, pal), pal2) : vals[i]; ne++;
+                if ((got ^ want) & dmask) { snprintf (key, sizeof key, "C10:same-format-copy:%s", rp_name (f)); vf_violation (key, "raw %x at x=%d (left neighbour %x) is copied as %x, expected %x (defined bits %x)%s", vals[i] & dmask, off + i, i ? vals[i - 1] & dmask : 0, got & dmask, want & dmask, dmask, pal ? " through the two palettes" : ""); break; }
+            }
+            pixman_image_unref (d); vf_buf_free (&D); free (pal2);
+            /* (b) round trips of the runs */
+            for (int via_float = rp_is_wide (f) ? 1 : 0; via_float < 2; via_float++) {
+                vf_buf M, D2; vf_buf_alloc (&M, via_float ? PIXMAN_rgba_float : PIXMAN_a8r8g8b8, n, 1, 0, 0, VF_PLACE_END); vf_buf_alloc (&D2, f, W, 1, 0, 0, vf_default_place (r));
+                pixman_image_t *m = vf_buf_image (&M), *d2 = vf_buf_image (&D2); if (pal) pixman_image_set_indexed (d2, pal);
+                src_to (simg, m, off, n);
+                pixman_image_composite32 (PIXMAN_OP_SRC, m, NULL, d2, 0, 0, 0, 0, off, 0, n, 1);
+                for (int i = 0; i < n; i++) { uint32_t got = vf_get_px (vf_buf_row (&D2, 0), bpp, off + i); ne++;
+                    if ((got ^ vals[i]) & dmask) { snprintf (key, sizeof key, "C10:round-trip-of-runs:%s:%s", rp_name (f), via_float ? "via-float" : "via-a8r8g8b8"); vf_violation (key, "raw %x at x=%d (left neighbour %x) comes back as %x (defined bits %x)", vals[i] & dmask, off + i, i ? vals[i - 1] & dmask : 0, got & dmask, dmask); break; } }
+                pixman_image_unref (m); pixman_image_unref (d2); vf_buf_free (&M); vf_buf_free (&D2);
+            }
+        }
+        /* (c) into other narrow formats: encode (decode (v)) with the 8-bit codec */
+        if (!rp_is_wide (f)) for (int k = 0; k < 3; k++) {
+            pixman_format_code_t G = 0; int tries = 0;
+            do G = fmts[(idx / nfmts * 5 + idx % nfmts * 3 + k * 11 + chunk * 7 + tries++) % nfmts]; while ((rp_is_wide (G) || rp_is_float (G) || is_yuv (G) || !pixman_format_supported_destination (G) || G == f) && tries < 200);
+            if (tries >= 200) break;
+            int gb = PIXMAN_FORMAT_BPP (G); pixman_indexed_t *palg = rp_is_indexed (G) ? rq_make_palette (G, 77 + (uint64_t)k + (uint64_t)(idx % nfmts)) : NULL;
+            uint32_t gmask = rp_is_indexed (G) ? (gb >= 8 ? 0xff : gb == 1 ? 1 : 0xf) : rp_defined_mask (G);
+            vf_buf D; vf_buf_alloc (&D, G, W, 1, 0, 0, vf_default_place (r)); vf_buf_fill_random (&D, r);
+            pixman_image_t *d = vf_buf_image (&D); if (palg) pixman_image_set_indexed (d, palg);
+            pixman_image_composite32 (PIXMAN_OP_SRC, simg, NULL, d, off, 0, 0, 0, off, 0, n, 1);
+            for (int i = 0; i < n; i++) {
+                uint32_t got = vf_get_px (vf_buf_row (&D, 0), gb, off + i), want = expect_encode8 (G, expect_decode8 (f, vals[i] & (rp_is_indexed (f) ? dmask : 0xffffffffu), pal), palg); ne++;
+                if ((got ^ want) & gmask) { snprintf (key, sizeof key, "C10:cross-format-copy:%s", rp_name (f)); vf_violation (key, "%s raw %x at x=%d is stored into %s as %x, narrowing its 8-bit widening gives %x (defined bits %x)", rp_name (f), vals[i], off + i, rp_name (G), got & gmask, want & gmask, gmask); break; }
+            }
+            vf_label ("copy_pairs", "%s>%s", rp_name (f), rp_name (G));
+            pixman_image_unref (d); vf_buf_free (&D); free (palg);
+        }
+        vf_count ("evaluations", ne); vf_count ("copied_pixels", ne);
+        vf_cell ("cells", vf_mix (vf_mix (8, (uint64_t)f), vf_mix (chunk, off)));
     }
     if (idx < 5) vf_sample ("%s format=%s chunk=%ld (%d pixel values starting at x=%d)", kname[kind], rp_name (f), chunk, n, off);
     pixman_image_unref (simg); vf_buf_free (&S); free (vals); free (pal);
